@@ -363,7 +363,7 @@ def check(pid, tier, seed):
         avail = set(theorems_of(mf))
         for n in names:
             if n == "*":
-                thms_q += [f"Pm.{t}" for t in sorted(avail) if f"Pm.{t}" not in thms_q]
+                thms_q += [f"Pm.{t}" for t in sorted(avail) if PROP_NAME.match(t) and f"Pm.{t}" not in thms_q]
             else:
                 thms_q.append(n if n.startswith("Pm.") else f"Pm.{n}")
     thms = [t[3:] if t.startswith("Pm.") else t for t in thms_q]
